@@ -9,13 +9,19 @@ BOUNDED = ['vectors of variable-size items: at most 1 item (coded/numeric vector
 MODULES = ('cryptoparser.tls.mysql', 'cryptoparser.tls.rdp', 'cryptoparser.tls.openvpn', 'cryptoparser.tls.postgresql', 'cryptoparser.tls.ldap')
 
 
-def units(tier, seed):
+def _units_body(tier, seed):
     us, unc = k6family.make_units('C09', MODULES, tier)
     UNCOVERED[:] = unc
     from checks import foundation
     from checks import tables as _tables
     _table_units = _tables.units(_tables.OPP)
     return list(us) + foundation.units(tier, seed) + _table_units
+
+
+
+def units(tier, seed):
+    from checks import canary
+    return list(_units_body(tier, seed)) + [canary.e2_layout()]
 
 
 FINDING_REPLAYS = regions.finding_replays('C09')
